@@ -102,6 +102,15 @@ CATALOGUE = {
   (TOK, "                self._messages.append([status])\n                self._status = 0", "                self._messages.appendleft([status])\n                self._status = 0", C),
   (PQ, "        with self._parser_lock:\n            self._parser.feed(msg_bytes)\n            for msg in self._parser:\n                self.put(msg)",
        "        with self._parser_lock:\n            self._parser.feed(msg_bytes)\n        for msg in self._parser:\n            self.put(msg)", C),
+  (PQ, "            for msg in self._parser:\n                self.put(msg)", "            for msg in reversed(list(self._parser)):\n                self.put(msg)", C),
+  (PQ, "            for msg in self._parser:\n                self.put(msg)", "            msg = self._parser.get_message()\n            if msg is not None:\n                self.put(msg)", C),
+  (PQ, "        with self._parser_lock:\n            self._parser.feed(msg_bytes)", "        with RLock():\n            self._parser.feed(msg_bytes)", C),
+  (PQ, "            self._parser.feed(msg_bytes)\n            for msg in self._parser:\n                self.put(msg)",
+       "            parser = self._parser\n            parser.feed(msg_bytes)\n            while parser.pending():\n                self.put(parser.get_message())", S),
+  (TOK, "        if 0 <= byte <= 255:\n            if byte <= 127:\n                return self._feed_data_byte(byte)\n            else:\n                return self._feed_status_byte(byte)\n        else:\n            raise ValueError(f'invalid byte value {byte!r}')",
+        "        if not 0 <= byte <= 255:\n            raise ValueError(f'invalid byte value {byte!r}')\n        handler = self._feed_data_byte if byte <= 127 else self._feed_status_byte\n        return handler(byte)", S),
+  (PAR, "        for msg in self:\n            return msg\n        else:\n            return None", "        if not self.messages:\n            return None\n        return self.messages.popleft()", S),
+  (PAR, "        for msg in self:\n            return msg\n        else:\n            return None", "        if len(self.messages) > 1:\n            return self.messages.popleft()\n        return None", C),
  ],
  'C06': [
   (TOK, "            if self._status != SYSEX_START:\n                # Realtime messages are only allowed inside sysex\n                # messages. Reset parser.\n                self._status = 0",
@@ -162,6 +171,15 @@ CATALOGUE = {
   (PORTS, "class EchoPort(BaseIOPort):\n    def _send(self, message):\n        self._messages.append(message)",
           "class EchoPort(BaseIOPort):\n    _locking = False\n\n    def _send(self, message):\n        self._messages.append(message)", C),
   (PORTS, "            self._send(msg.copy())", "            self._send(msg)", C),
+  (PORTS, "        with self._lock:\n            if self._messages:\n                return self._messages.popleft()\n\n        if self.closed:",
+          "        q = self._messages\n        with self._lock:\n            pending = bool(q)\n        if pending:\n            return q.popleft()\n\n        if self.closed:", C),
+  (PORTS, "        with self._lock:\n            if self._messages:\n                return self._messages.popleft()\n\n        if self.closed:",
+          "        with self._lock:\n            pending = bool(self._messages)\n        with self._lock:\n            if pending:\n                return self._messages.popleft()\n\n        if self.closed:", C),
+  (PORTS, "        with self._lock:\n            if self._messages:\n                return self._messages.popleft()\n\n        if self.closed:",
+          "        lock, queue = self._lock, self._messages\n        with lock:\n            if len(queue) != 0:\n                return queue.popleft()\n\n        if self.closed:", S),
+  (PORTS, "        if self._locking:\n            self._lock = threading.RLock()\n        else:\n            self._lock = DummyLock()", "        self._lock = threading.RLock() if self._locking else DummyLock()", S),
+  (PORTS, "        if self._locking:\n            self._lock = threading.RLock()\n        else:\n            self._lock = DummyLock()", "        self._lock = DummyLock() if self._locking else threading.RLock()", C),
+  (PQ, "        with self._parser_lock:\n            self._parser.feed(msg_bytes)", "        with RLock():\n            self._parser.feed(msg_bytes)", C),
  ],
  'C11': [
   (PORTS, "                self._close()\n                self.closed = True", "                self._close()", C),
